@@ -7,6 +7,7 @@ from harness.wire import Exn
 PROP = "C13"
 THEOREM_FILE = "Props/C13.v"
 EXTRA_THEOREM_FILES = ["Props/C13_src.v"]     # source tie: translated source = model (DESIGN 5.1b)
+EXTRA_THEOREM_FILES.append("Props/C13_code.v")     # (CODA) code-level theorems: the property about the regenerated definitions
 RULE = ("spanning_cidr on sequences of 0..6 elements [ver, value, prefixlen, form]: every ordered pair of aligned blocks "
         "of the small arenas at both ends and in the middle of both address spaces (nested, identical, adjacent, "
         "far apart, differing prefixes), triples..sextuples drawn from the arenas with host bits, in every order "
